@@ -2,6 +2,14 @@ module veriftools
 
 go 1.23.0
 
-require github.com/platinummonkey/go-concurrency-limits v0.0.0
+require (
+	github.com/platinummonkey/go-concurrency-limits v0.0.0
+	golang.org/x/tools v0.29.0
+)
+
+require (
+	golang.org/x/mod v0.22.0 // indirect
+	golang.org/x/sync v0.10.0 // indirect
+)
 
 replace github.com/platinummonkey/go-concurrency-limits => /repo
